@@ -16,6 +16,12 @@ C = {
  "C17": ("model_checking", "5.3,6/C17", TV,
    "AlignedF/EndExtraF in ZipWriter.tla with the Aligned invariant model-checked; every alignment value (quick: 0..300, powers of two +-1, 65531..65535; thorough: all 65536) at varied preceding offsets with/without large_file and consecutive aligned entries, plus extra-data programs (shared/local-only/central-only; reserved, ZIP64, truncated records; totals around the 16-bit limit) run on the real writer; returned padding, data_start (bytes and reader), placement/verbatim storage validated by the trace spec.",
    "extra-data programs write whole records per call"),
+ "C13": ("model_checking", "5.3,6/C13", TV,
+   "NewAppendF in ZipWriter.tla (entries re-derived from the independently lexed base, absolute offsets, last old entry not re-patched) with the action property ClosedEntriesImmutable model-checked; histories base -> (append k)* with 1..3 rounds over bases from this writer, the independent builder (prefix up to 64 KiB, forced ZIP64, data descriptors, unknown methods, CP437 names) and CPython zipfile; after each round the lexed bytes, the reopened archive and every old entry's metadata, raw-data CRC and decoded content must equal the spec's expectation. Known finding D10 (stale tail when the re-emitted directory is shorter) is reported as KNOWN-FINDING, keyed by the history predicate.",
+   "bases are unencrypted as the property states; >65535-entry and >4 GiB bases are exercised under C08"),
+ "C14": ("model_checking", "5.3,6/C14", TV,
+   "RawCopyF + RawVerbatim: raw copies (first/middle/last/only, renamed or not) of entries from this writer (every method/level) and from the independent builder (methods the crate cannot decode, four data-descriptor styles, forced ZIP64, DOS/absent attributes, CP437 names) interleaved with ordinary entries, into sinks that also short-write; the trace spec requires identical raw bytes (CRC of the data region from the independent lexer and from by_index_raw), equal method/CRC/sizes/time words/low nine permission bits and unchanged neighbours.",
+   "ZIP64-sized sources are exercised under C08"),
 }
 checks = []
 for pid in sorted(C):
